@@ -3,7 +3,6 @@ package otp
 import (
 	"errors"
 	"fmt"
-	"strconv"
 	"strings"
 )
 
@@ -255,7 +254,7 @@ func parseCryptoFunction(raw, crypto string) (SuiteConfig, error) {
 		return SuiteConfig{}, fmt.Errorf("unsupported hash %q", hashPart)
 	}
 
-	dig, err := strconv.Atoi(digPart)
+	dig, err := parseSuiteNumber(digPart)
 	if err != nil {
 		return SuiteConfig{}, fmt.Errorf("invalid digit spec %q", digPart)
 	}
@@ -327,6 +326,22 @@ func parseDataInputTokens(cfg *SuiteConfig, input string) error {
 	return nil
 }
 
+// parseSuiteNumber parses the small unsigned decimal numbers of a suite string:
+// one to three digits, no sign (so val*3600 cannot overflow).
+func parseSuiteNumber(s string) (int, error) {
+	if len(s) == 0 || len(s) > 3 {
+		return 0, fmt.Errorf("invalid number %q", s)
+	}
+	n := 0
+	for i := 0; i < len(s); i++ {
+		if s[i] < '0' || s[i] > '9' {
+			return 0, fmt.Errorf("invalid number %q", s)
+		}
+		n = n*10 + int(s[i]-'0')
+	}
+	return n, nil
+}
+
 // parseTimeGranularity is an example that converts e.g. "1M" => 60, "2H" => 7200, "30S" => 30
 func parseTimeGranularity(g string) (int, error) {
 	if len(g) < 2 {
@@ -334,7 +349,7 @@ func parseTimeGranularity(g string) (int, error) {
 	}
 	numStr := g[:len(g)-1]
 	unit := g[len(g)-1]
-	val, err := strconv.Atoi(numStr)
+	val, err := parseSuiteNumber(numStr)
 	if err != nil {
 		return 0, err
 	}
